@@ -1,7 +1,10 @@
 package main
 
 import (
+	"bufio"
 	"fmt"
+	"os"
+	"os/exec"
 	"strings"
 	"testing/fstest"
 
@@ -37,6 +40,12 @@ func memoConfig(role, s, variant string) (string, coraza.WAFConfig) {
 		content := map[string]string{"0": "abc\nx\n", "1": "zzz\n1\n", "2": "ab c\nx\n", "3": "ab\nc\nx\n"}[variant]
 		cfg = cfg.WithRootFS(fstest.MapFS{s + ".data": &fstest.MapFile{Data: []byte(content)}})
 		d = fmt.Sprintf(`SecRule ARGS_GET:q "@pmFromFile %s.data" "id:1,phase:1,deny"`, s)
+	case "vschema":
+		// one schema file name, two contents, in different root file systems
+		content := map[string]string{"0": `{"type":"object","required":["a"]}`, "1": `{"type":"object","required":["b"]}`,
+			"2": `{"type":"object","required":["a"]}`, "3": `{"type":"object","required":["b"]}`}[variant]
+		cfg = cfg.WithRootFS(fstest.MapFS{s + ".json": &fstest.MapFile{Data: []byte(content)}})
+		d = fmt.Sprintf(`SecRule ARGS_GET:q "@validateSchema %s.json" "id:1,phase:1,deny"`, s)
 	case "restpath":
 		d = fmt.Sprintf(`SecRule ARGS_GET:q "@restpath %s" "id:1,phase:1,deny"`, s)
 	case "rx":
@@ -99,7 +108,66 @@ func closeWAF(w coraza.WAF) {
 	}
 }
 
+// the same harness built with -tags coraza.no_memoize, as a coprocess (VERIF_NOMEMO_BIN): C13 demands
+// that behaviour with the process-wide cache equals behaviour with the cache compiled out
+var (
+	nomemoIn  *bufio.Writer
+	nomemoOut *bufio.Scanner
+)
+
+func nomemoObs(lhs string) string {
+	bin := os.Getenv("VERIF_NOMEMO_BIN")
+	if bin == "" {
+		return ""
+	}
+	if nomemoIn == nil {
+		cmd := exec.Command(bin, "serve")
+		cmd.Env = append(os.Environ(), "VERIF_IS_NOMEMO=1") // the coprocess must not start one of its own
+		in, err1 := cmd.StdinPipe()
+		out, err2 := cmd.StdoutPipe()
+		if err1 != nil || err2 != nil || cmd.Start() != nil {
+			return "NOMEMO-UNAVAILABLE"
+		}
+		nomemoIn = bufio.NewWriter(in)
+		nomemoOut = bufio.NewScanner(out)
+		nomemoOut.Buffer(make([]byte, 1<<20), 1<<26)
+	}
+	nomemoIn.WriteString(lhs + "\n")
+	nomemoIn.Flush()
+	if !nomemoOut.Scan() {
+		return "NOMEMO-DIED"
+	}
+	return nomemoOut.Text()
+}
+
+// the fields that must not depend on the cache
+func memoBehaviour(obs string) string {
+	var keep []string
+	for _, t := range strings.Fields(obs) {
+		if strings.HasPrefix(t, "alone=") || strings.HasPrefix(t, "hist=") || strings.HasPrefix(t, "last=") {
+			keep = append(keep, t)
+		}
+	}
+	if len(keep) == 0 {
+		return strings.ReplaceAll(obs, " ", "_")
+	}
+	return strings.Join(keep, "|")
+}
+
 func execMemo(a []string) string {
+	obs := execMemoLocal(a)
+	if os.Getenv("VERIF_NOMEMO_BIN") != "" && os.Getenv("VERIF_IS_NOMEMO") == "" {
+		other := nomemoObs("memo " + strings.Join(a, " "))
+		if memoBehaviour(other) == memoBehaviour(obs) {
+			obs += " nomemo=same"
+		} else {
+			obs += " nomemo=DIFFERS:" + memoBehaviour(other)
+		}
+	}
+	return obs
+}
+
+func execMemoLocal(a []string) string {
 	cfgs := strings.Split(a[0], ";")
 	probes := strings.Split(a[1], ",")
 	alone := make([]string, len(cfgs))
@@ -154,7 +222,7 @@ func execMemo(a []string) string {
 
 func init() {
 	engines["memo"] = &engine{Exec: execMemo, Gen: func(c *ctx) {
-		roles := []string{"pm", "rxkey", "rxkeyh", "rxkeyh", "rxkey", "ds", "pmf", "restpath", "rx", "ctl", "relstatus"}
+		roles := []string{"pm", "rxkey", "rxkeyh", "rxkeyh", "rxkey", "ds", "pmf", "restpath", "rx", "ctl", "relstatus", "vschema", "vschema"}
 		for i := 0; i < c.n; i++ {
 			n := 2 + c.r.Intn(3)
 			// few distinct strings so that the same text shows up in different roles
@@ -169,7 +237,7 @@ func init() {
 				cfgs = append(cfgs, role+":"+gen.Field(pool[c.r.Intn(2)])+":"+variant)
 				c.stats.Hit("role:" + role)
 			}
-			probes := []string{gen.Field("abc"), gen.Field("x"), gen.Field("zzz"), gen.Field("1"), gen.Field(pool[0]), gen.Field("ABC"), gen.Field("c"), gen.Field("ab c")}
+			probes := []string{gen.Field("abc"), gen.Field("x"), gen.Field("zzz"), gen.Field("1"), gen.Field(pool[0]), gen.Field("ABC"), gen.Field("c"), gen.Field("ab c"), gen.Field(`{"a":1}`), gen.Field(`{"b":1}`)}
 			obs := c.run("memo", strings.Join(cfgs, ";"), strings.Join(probes, ","))
 			if strings.Contains(obs, "1") {
 				c.stats.Hit("some-probe-blocked")
